@@ -50,7 +50,7 @@ let model_string (s : st) : string =
     (List.length s.locs) (List.length s.dnl) (List.length s.dnlq) (String.concat "|" ns)
 
 (* ---- parsing of the implementation's dump ---- *)
-type ientry = { e_q : bool; e_exp : int }
+type ientry = { e_q : bool; e_exp : int; e_norec : bool }
 type inode = { i_path : name; i_entries : ientry list; i_cs : (int * int) option }
 type idump = { f : (string * string) list; inodes : inode list }
 
@@ -70,7 +70,7 @@ let parse_node (s : string) : inode =
       let body = String.sub rest (i + 1) (String.length rest - i - 2) in
       List.map (fun e ->
         match String.split_on_char ',' e with
-        | [_; _; _; _; q; ex] -> { e_q = (q = "1"); e_exp = int_of_string ex }
+        | [_; ins; outs; _; q; ex] -> { e_q = (q = "1"); e_exp = int_of_string ex; e_norec = (ins = "-" && outs = "-") }
         | _ -> failwith "entry") (String.split_on_char ';' body), String.sub rest 0 i
     | None -> [], rest in
   { i_path = name_of_string path; i_entries = entries; i_cs = cs }
@@ -86,15 +86,16 @@ let parse_dump (s : string) : idump =
 let fld d k = try List.assoc k d.f with Not_found -> "?"
 let fldi d k = try int_of_string (fld d k) with _ -> -1
 
-let coq_dump (d : idump) : dump =
-  { d_npit = z_of_int (fldi d "npit"); d_ncs = z_of_int (fldi d "ncs"); d_tok = z_of_int (fldi d "tok");
+let coq_dump (now : int) (d : idump) : dump =
+  { d_now = z_of_int now; d_npit = z_of_int (fldi d "npit"); d_ncs = z_of_int (fldi d "ncs"); d_tok = z_of_int (fldi d "tok");
     d_heap = z_of_int (fldi d "heap"); d_csmap = z_of_int (fldi d "csmap");
     d_lruq = (let q = fld d "lruq" in
               let i = String.index q ':' in
               let body = String.sub q (i + 1) (String.length q - i - 1) in
               if String.sub q 0 i = "0" then [] else List.map name_of_string (String.split_on_char ';' body));
     d_locs = z_of_int (fldi d "locs"); d_dnl = z_of_int (fldi d "dnl"); d_dnlq = z_of_int (fldi d "dnlq");
-    d_nodes = List.map (fun nd -> { dn_path = nd.i_path; dn_queued = List.map (fun e -> e.e_q) nd.i_entries;
+    d_nodes = List.map (fun nd -> { dn_path = nd.i_path;
+                                    dn_ents = List.map (fun e -> { de_q = e.e_q; de_norec = e.e_norec; de_exp = z_of_int e.e_exp }) nd.i_entries;
                                     dn_cs = (nd.i_cs <> None) }) d.inodes }
 
 let impl_cache (d : idump) : csent list =
@@ -158,7 +159,7 @@ let () =
       spec := { !spec with c_list = List.filter (fun e -> List.exists (fun x -> x.cs_name = e.cs_name) ic) (!spec).c_list }
     end;
     if fld d "broken" <> "-" then oracle "C08" "broken-structure" (fld d "broken");
-    let cd = coq_dump d in
+    let cd = coq_dump (nowi ()) d in
     List.iter (fun c -> oracle "C08" (Printf.sprintf "always:%d" (int_of_n c))
                   (Printf.sprintf "after=[%s] npit=%s ncs=%s tok=%s heap=%s csmap=%s lruq=%s locs=%s dnl=%s dnlq=%s" !last_op
                      (fld d "npit") (fld d "ncs") (fld d "tok") (fld d "heap") (fld d "csmap") (fld d "lruq") (fld d "locs") (fld d "dnl") (fld d "dnlq")))
